@@ -17,7 +17,7 @@ type decryptionSecret struct {
 // readDecryptionSecrets parses an encryption secrets section from the given
 func (r *NgReader) readDecryptionSecretsBlock() error {
 	if _, err := r.readBytes(r.buf[:8]); err != nil {
-		return fmt.Errorf("could not read DecryptionSecret Header block length: %v", err)
+		return fmt.Errorf("could not read DecryptionSecret Header block length: %w", err)
 	}
 	r.currentBlock.length -= 8
 
@@ -29,7 +29,7 @@ func (r *NgReader) readDecryptionSecretsBlock() error {
 	}
 	var payload = make([]byte, decryptionSecretsBlock.secretsLength)
 	if _, err := r.readBytes(payload); err != nil {
-		return fmt.Errorf("could not read %d bytes from DecryptionSecret payload: %v", decryptionSecretsBlock.secretsLength, err)
+		return fmt.Errorf("could not read %d bytes from DecryptionSecret payload: %w", decryptionSecretsBlock.secretsLength, err)
 	}
 	r.currentBlock.length -= uint32(len(payload))
 
